@@ -305,6 +305,26 @@ def dtype(spec=None):
     raise TypeError(f"Cannot interpret '{spec!r}' as a data type")
 
 
+def fill_src(value, name):
+    """source of rows all holding `value` cast to dtype `name`.  Concrete values are keyed by the BYTES they
+    cast to (0 and 0.0 alike; -0.0 differs from 0.0 in a floating type; True is 1)."""
+    v = value
+    try:
+        from .holes import _is_sym
+        sym = _is_sym(v)
+    except Exception:
+        sym = False
+    if not sym and isinstance(v, (bool, int, float)) and name in _TYPES:
+        kind = _TYPES[name][0]
+        if kind in 'fc':
+            v = ('f', repr(float(v)))
+        elif kind in 'iu' and isinstance(v, (bool, int)):
+            v = int(v)
+    elif not sym and isinstance(v, complex) and name in _TYPES and _TYPES[name][0] == 'c':
+        v = ('c', repr(v.real), repr(v.imag)) if v.imag != 0 or repr(v.imag) == '-0.0' else ('f', repr(v.real))
+    return ('fill', v, name)
+
+
 def _prod(t):
     p = 1
     for x in t:
@@ -687,7 +707,7 @@ def _value_rows(value, dt, nrows, subshape):
             return rows
         raise ModelGap('assignment broadcast rank')
     if isinstance(value, (int, float, complex)):
-        return Seq.of(('fill', value, dt.name), nrows)
+        return Seq.of(fill_src(value, dt.name), nrows)
     raise ModelGap(f'assignment value {type(value).__name__}')
 
 
@@ -722,7 +742,7 @@ def _setitem(a, index, value):
         if isinstance(value, OpaqueValue):
             new = _value_rows(value, a.dtype, 1, a._shape[1:])
         elif isinstance(value, (int, float, complex)):
-            new = Seq.of(('fill', value, a.dtype.name), 1)
+            new = Seq.of(fill_src(value, a.dtype.name), 1)
         else:
             raise ModelGap('setitem value')
         a._store(rows.cut(0, i).concat(new).concat(rows.cut(i + 1, n)))
@@ -962,7 +982,7 @@ def full(shape, fill_value, dtype=None):
     if not hasattr(shape, '__len__'):
         shape = (shape,)
     shape = tuple(shape)
-    return ndarray(d, shape, Seq.of(('fill', fill_value, d.name), shape[0]))
+    return ndarray(d, shape, Seq.of(fill_src(fill_value, d.name), shape[0]))
 
 
 def arange(n, dtype=None):
@@ -1056,11 +1076,20 @@ class memmap(ndarray):
         self._order = order
         self._mode = mode
         self._mmap = symfs.MmapHandle(node, self)
-        self._mapowner = self
         # measured NumPy behaviour: the file position is left at end of file
         fobj.pos = node.size()
         if own:
             fobj.close()
+
+    @property
+    def _mapowner(self):
+        return self
+
+    def __del__(self):
+        # like the real thing: the mapping goes when the last reference to the memmap (or a view of it) goes
+        m = self.__dict__.get('_mmap')
+        if m is not None:
+            m.closed = True
 
     def _check_alive(self):
         if self._mmap.closed:
